@@ -313,6 +313,57 @@ def sweep_chars(stride=1, phase=0):
     out += lanes(0xA800, 1, 2)            # 10B (stores nothing)
     return out
 
+def sweep_confusable(g0=None):
+    """two receptions for the same cell, both error-free: first a byte p, then a byte b whose RAW value equals the
+    CODE POINT stored for p (e.g. 0xAB is stored as '$' = 0x24, and byte 0x24 is '¤'): a comparison of stored
+    character with raw byte (instead of converted character) shows only on these pairs. Also b then p, and every byte
+    after itself. g0: byte -> code point as read out of the compiled library (extraction); without it a built-in
+    list of the pairs of the RDS G0 table is used."""
+    pairs = []
+    if g0:
+        for p_, cp in sorted(g0.items()):
+            if cp < 256 and cp != p_ and 0x20 <= cp: pairs.append((p_, cp))
+    else:
+        pairs = [(0xAB, 0x24), (0x24, 0xA4), (0x7E, 0xAF), (0x8E, 0xA1), (0x91, 0xE4), (0x97, 0xFC), (0xD1, 0xC4), (0xD7, 0xDC)]
+    out = ["new"] + ALL_CBS
+    def lane_ops(byte, lane):
+        if lane == 0: return P(0x1234, 0x0000, 0, (byte << 8) | 0x41)          # 0A D hi, PS cell 0
+        if lane == 1: return P(0x1234, 0x0801, 0, 0x4100 | byte)               # 0B D lo, PS cell 3
+        if lane == 2: return P(0x1234, 0x2000, (byte << 8) | 0x41, 0x4243)     # 2A C hi, RT A cell 0
+        if lane == 3: return P(0x1234, 0x2001, 0x4142, 0x4300 | byte)          # 2A D lo, RT A cell 7
+        if lane == 4: return P(0x1234, 0x2802, 0, (byte << 8) | 0x41)          # 2B D hi, RT A cell 4
+        return P(0x1234, 0xA001, 0x4100 | byte, 0x4243)                        # 10A C lo, PTYN cell 5
+    for (a, b) in pairs:
+        for lane in range(6):
+            out += [lane_ops(a, lane), lane_ops(b, lane), lane_ops(a, lane)]
+    return out
+
+def sweep_rt_levels(stride=1, phase=0):
+    """RT scenarios over every combination of thresholds and error levels of the stored group: store one group for flag X
+    (so that every stored cell has the same weighted level), switch to Y, switch back to X with every text block
+    rejected — the buffer must be emptied and the RT callback must fire exactly when something was discarded"""
+    out = ["new"] + ALL_CBS
+    n = 0
+    for ti in range(3):
+        for td in range(3):
+            for ver in (0, 1):
+                for x in (0, 1):
+                    for eb in range(ti + 1):
+                        for ec in range(td + 1):
+                            for ed in range(td + 1):
+                                for back in (0, 1, 2):
+                                    n += 1
+                                    if (n + phase) % stride: continue
+                                    vb = 0x0800 if ver else 0
+                                    out += ["clear", "c 1 0 %d" % ti, "c 1 1 %d" % td,
+                                            P(0x1234, 0x2000 | vb | (x << 4) | 1, 0x4142, 0x4344, 0, eb, ec, ed),
+                                            P(0x1234, 0x2000 | vb | ((1 - x) << 4) | 2, 0x4546, 0x4748, 0, 0, 3 if back else 0, 3 if back else 0)]
+                                    if back == 2:   # a noisy (accepted) group of the old flag in between
+                                        out.append(P(0x1234, 0x2000 | vb | (x << 4) | 1, 0x494A, 0x4B4C, 0, min(ti, 1), 3, 3))
+                                    out.append(P(0x1234, 0x2000 | vb | (x << 4) | 3, 0x0101, 0x0101, 0, 0, 3, 3))
+                                    out.append(P(0x1234, 0x2000 | vb | ((1 - x) << 4) | 3, 0x0D0D, 0x0D0D, 0, 0, 0, 0))
+    return out
+
 def sweep_block_c(stride=1, phase=0):
     """S3: all 65 536 values of block C in 0A (AF) and 1A (ECC), both check modes"""
     out = []
